@@ -379,7 +379,7 @@ theorem step_cov {b b' : Builder} (t : Token) (hok : BuilderOk b) (h : BuilderCo
           split at hr
           · split at hr
             · cases hr
-            · exact leave_cov (b := { b with env := env1, nsStack := b.nsStack.tail })
+            · exact leave_cov (b := { b with env := env1, nsStack := b.nsStack.tail, openPrefixes := b.openPrefixes.tail })
                 (builderCov_congr h rfl rfl rfl) (helem hne) sp hr
           · exact leave_cov (b := { b with env := env1 })
               (builderCov_congr h rfl rfl rfl) (helem hne) sp hr
@@ -404,7 +404,7 @@ theorem step_cov {b b' : Builder} (t : Token) (hok : BuilderOk b) (h : BuilderCo
               · simp only [Step.ok.injEq] at hb; subst hb; rfl
         unfold Builder.closeImmediate at hr
         simp only [hel1, if_true] at hr
-        exact leave_cov (b := { b1 with nsStack := b1.nsStack.tail })
+        exact leave_cov (b := { b1 with nsStack := b1.nsStack.tail, openPrefixes := b1.openPrefixes.tail })
           (builderCov_congr h1 rfl rfl rfl) hel1 sp hr
       | err e env => rw [hb] at hr; cases hr
       | panic => rw [hb] at hr; cases hr
